@@ -139,6 +139,33 @@ def run(ctx: Ctx):
                     ctx.violation({"check": "corruption-accepted", "n": n, "pos": i, "value": x,
                                    "region": "length" if i == 0 else "header" if i <= 10 else "checksum" if i >= len(blk) - 2 else "data",
                                    "what": f"block with byte {i} altered to {x:#x} was accepted as valid"})
+    # blocks whose checksum has a zero byte (TLC: SecsIBlockVec.ZBlocks): every value of every byte
+    zv = r.tagged("ZV")
+    if len(zv) < 4:
+        raise Machinery("zero-byte checksum vectors missing")
+    for v in zv:
+        blk = bytes(v["block"])
+        try:
+            intact = SecsIBlock.decode(blk)
+        except Exception:  # noqa: BLE001
+            intact = None
+        if intact is None:
+            ctx.violation({"check": "valid-block-rejected", "block": blk.hex(), "what": f"the intact block {blk.hex()} (checksum with a zero byte) is not accepted"})
+            continue
+        for i in range(len(blk)):
+            for x in range(256):
+                if x == blk[i]:
+                    continue
+                c = blk[:i] + bytes([x]) + blk[i + 1:]
+                ncorr += 1
+                try:
+                    res = SecsIBlock.decode(c)
+                except Exception:  # noqa: BLE001
+                    res = None
+                if res is not None:
+                    ctx.violation({"check": "corruption-accepted", "n": len(blk) - 13, "pos": i, "value": x, "block": blk.hex(),
+                                   "region": "length" if i == 0 else "header" if i <= 10 else "checksum" if i >= len(blk) - 2 else "data",
+                                   "what": f"block {blk.hex()} with byte {i} altered to {x:#x} was accepted as valid"})
     # crafted blocks (TLC: SecsIBlockVec.Crafted): length byte lowered onto a self-consistent prefix
     for v in r.tagged("CV"):
         c = bytes(v["block"])
